@@ -29,13 +29,12 @@ func (e *Engine) verifyFunc(fn *ssa.Function, c *Contract) (vc *VC, err error) {
 	for _, p := range fn.Params {
 		v := vc.freshValue(p.Name(), p.Type(), st)
 		fr.vals[p] = v
-		if _, ok := p.Type().Underlying().(*types.Pointer); ok {
-			vc.assumeAlways("(>= " + v.C[0] + " 0)")
-		}
+		vc.assumeAlways(vc.allocFacts(st, v, p.Type()))
 	}
 	for _, p := range fn.FreeVars {
 		v := vc.freshValue("free."+p.Name(), p.Type(), st)
 		vc.assumeAlways("(> " + v.C[0] + " 0)")
+		vc.assumeAlways(vc.allocFacts(st, v, p.Type()))
 		fr.vals[p] = v
 	}
 	// global invariants (immutable globals only)
@@ -84,6 +83,18 @@ func (e *Engine) verifyFunc(fn *ssa.Function, c *Contract) (vc *VC, err error) {
 		vc.assumeAlways(t)
 	}
 	for _, sl := range c.Stable {
+		if strings.HasSuffix(sl, "[*]") {
+			locs, lerr := fr.resolveLoc(sl, fn.Pkg.Pkg, nil, st, st)
+			if lerr != nil {
+				return vc, fmt.Errorf("%s:%d: stable %s: %v", c.File, c.Line, sl, lerr)
+			}
+			for _, l := range locs {
+				vc.get(st, l.Key, l.Sort)
+				vc.stable = append(vc.stable, &Shape{Kind: ShField, Key: l.Key, Base: l.Idx[0]})
+			}
+			vc.assumed["unknown calls do not modify "+sl+" (unexported state; sequential view)"] = true
+			continue
+		}
 		e2, perr := parseContractExpr(sl)
 		if perr != nil {
 			return vc, perr
